@@ -11,8 +11,9 @@ for d in $(ls seeded | grep -E "$re"); do
   [ -f seeded/$d/patch_ported_to_head.diff ] && p=seeded/$d/patch_ported_to_head.diff
   prop=$(python3 -c "import json;print(json.load(open('seeded/$d/meta.json'))['property'])")
   git -C $M checkout -q --detach $head && git -C $M checkout -q -- . && git -C $M clean -fdq
-  if ! git -C $M apply --check $PWD/$p 2>/dev/null; then echo "$d STALE" >> $log; continue; fi
-  git -C $M apply $PWD/$p
+  if git -C $M apply --check $PWD/$p 2>/dev/null; then git -C $M apply $PWD/$p
+  elif git -C $M apply -3 $PWD/$p >/dev/null 2>&1 && ! git -C $M diff --name-only --diff-filter=U | grep -q .; then git -C $M reset -q
+  else git -C $M checkout -q -- . 2>/dev/null; git -C $M reset -q --hard; echo "$d STALE" >> $log; continue; fi
   out=$(VERIF_REPO=$M ./check $prop --no-evidence 2>&1)
   if echo "$out" | grep -q "^VIOLATION"; then echo "$d CAUGHT $(echo "$out" | grep -o 'sig=[^ ]*' | sort -u | head -3 | tr '\n' ' ')" >> $log
   else echo "$d MISSED $(echo "$out" | grep -E "HARNESS|^$prop " | tail -2 | tr '\n' ' ' | cut -c1-300)" >> $log; fi
